@@ -130,6 +130,13 @@ def run(chk):
         be = [rng.choice(["CX", "CY"]) for _ in range(n)]
         jrows = [[a, b] for a, b in zip(al, be)]
         expect({"op": "pc_table", "rows": jrows}, lambda al=al, be=be: float(st.pc((al, be))), "pc[tuple]", {"rows": jrows}, True)
+        # the two chains as pandas Series carrying different index labels: pairing is positional
+        sa = pd.Series(al, index=rng.sample(range(100), n))
+        sb = pd.Series(be, index=rng.sample(range(100, 200), n))
+        expect({"op": "pc_table", "rows": jrows}, lambda sa=sa, sb=sb: float(st.pc((sa, sb))), "pc[tuple-of-series]", {"rows": jrows}, True)
+        perm = rng.sample(range(n), n)
+        sc = pd.Series(be, index=perm)
+        expect({"op": "pc_table", "rows": jrows}, lambda al=al, sc=sc: float(st.pc((pd.Series(al), sc))), "pc[tuple-of-series-permuted]", {"rows": jrows}, True)
 
     ans = core.run_driver_parallel(ops)
     for (real, label, meta, nt), a, op in zip(checks, ans, ops):
